@@ -32,9 +32,10 @@ CLONE = ["CloneAsSymbol", "CloneAsFunction", "CloneAsIndexed"]
 
 
 def _c(steps, actions, names, latexes=("none",), dims=("length",), assums=("positive",), cassums=("inherit",),
-       subs=("none",), systypes=("cartesian",)):
+       subs=("none",), systypes=("cartesian",), batch=()):
     return dict(MaxSteps=steps, Actions=set(actions), Names=set(names), Latexes=set(latexes), DimNames=set(dims),
-                Assums=set(assums), CloneAssums=set(cassums), Subs=set(subs), SysTypes=set(systypes))
+                Assums=set(assums), CloneAssums=set(cassums), Subs=set(subs), SysTypes=set(systypes),
+                BatchSizes=set(batch))
 
 
 # Several configurations per tier: TLC explores ALL histories of each (the alphabets are sub-domains of the
@@ -56,8 +57,18 @@ CFG = {
         "latex3": _c(3, ["NewSymbol", "NewIndexed"] + CLONE, {"r"}, latexes=("none", "R"), subs=("none", "0")),
         # full parameter domains (3 names, 2 LaTeX names, 2 dimensions, 3 assumption sets, subscripts), depth 2
         "wide2": _c(2, ["NewSymbol", "NewIndexed"] + CLONE, {"none", "r", "T"}, dims=("one", "length"), **FULL),
+        # counters reaching two digits + display names of which one is another one followed by digits
+        # ("zq" used for the 11th time, "zq1" for the 1st): a batch of 10 equally named objects, then singles
+        "digits3": _c(3, ["NewSymbol", "NewIndexed", "NewFunction", "NewQuantity", "NewBatch"], {"zq", "zq1"}, batch=(10,)),
+        # assumption sets made of FALSE facts that no true fact implies, through chains of clones
+        "falsefacts4": _c(4, ["NewSymbol"] + CLONE, {"r"}, assums=("noncommutative", "zerofalse", "notinteger")),
     },
     "thorough": {
+        # counters reaching two digits + display names of which one is another one followed by digits
+        # ("zq" used for the 11th time, "zq1" for the 1st): a batch of 10 equally named objects, then singles
+        "digits3": _c(3, ["NewSymbol", "NewIndexed", "NewFunction", "NewQuantity", "NewBatch"], {"zq", "zq1"}, batch=(10,)),
+        # assumption sets made of FALSE facts that no true fact implies, through chains of clones
+        "falsefacts4": _c(4, ["NewSymbol"] + CLONE, {"r"}, assums=("noncommutative", "zerofalse", "notinteger")),
         "kinds7": _c(7, ["NewSymbol", "NewFunction", "NewQuantity", "NewSystem", "Rotate"], {"r"}),
         "create5": _c(5, CREATE, {"r"}, systypes=("cartesian", "cylindrical")),
         "clones7": _c(7, ["NewSymbol", "CloneAsSymbol", "CloneAsFunction"], {"r"}, subs=("0",)),
@@ -96,7 +107,10 @@ class _Lib:
         self.code_str, self.latex_str = code_str, latex_str
         self.dims = {"one": sy.dimensionless, "length": units.length, "time": units.time}
         self.qexpr = {"one": sp.Integer(2), "length": 2 * units.meter, "time": 2 * units.second}
-        self.assum = {"none": {}, "positive": {"positive": True}, "real": {"real": True}}
+        self.assum = {"none": {}, "positive": {"positive": True}, "real": {"real": True},
+                      # false facts that no true fact implies (a clone rebuilt from the true facts only loses them)
+                      "noncommutative": {"commutative": False}, "zerofalse": {"zero": False},
+                      "notinteger": {"integer": False}}
         # the abstraction of assumptions0: which model label has this closure (computed by SymPy itself)
         self.closure = {k: dict(sp.Symbol("verif_ref", **v).assumptions0) for k, v in self.assum.items()}
         self.systype = {"cartesian": cs.CoordinateSystem.System.CARTESIAN,
@@ -145,6 +159,9 @@ def _create(L, st, live):
     if op == "NewQuantityVector":
         L.sy.QuantityVector([1 * L.meter, 2 * L.meter, 3 * L.meter])
         return None
+    if op == "NewBatch":
+        one = {"symbol": "NewSymbol", "indexed": "NewIndexed", "function": "NewFunction", "quantity": "NewQuantity"}[st["t"]]
+        return [_create(L, dict(st, op=one, a=st["a"] if st["a"] in L.assum else "none"), live) for _ in range(st["k"])]
     src = live[st["src"] - 1]
     kw = {} if st["a"] in ("inherit", "none") else L.assum[st["a"]]
     if op == "CloneAsSymbol":
@@ -180,7 +197,41 @@ def _shown(kind, display):
     return {"indexed": f"{display}[i]", "function": f"{display}(verif_arg)"}.get(kind, display)
 
 
-PRIMES = [2, 3, 5, 7, 11, 13, 17, 19, 23]
+def _latex_forms(name: str):
+    """A LaTeX name and the way the LaTeX printer typesets a name ending in digits (zq1 -> zq_{1})."""
+    m = re.match(r"^(.*?[^\d_{}])(\d+)$", name)
+    forms = {name, f"\\operatorname{{{name}}}"}              # multi-letter function names are wrapped
+    if m:
+        forms |= {f"{m.group(1)}_{{{m.group(2)}}}", f"\\operatorname{{{m.group(1)}}}_{{{m.group(2)}}}"}
+    return forms
+
+
+PRIMES = [p for p in range(2, 400) if all(p % q for q in range(2, int(p ** 0.5) + 1))]
+
+
+def _letters(n: int) -> str:
+    """A digit-free word that the LaTeX printer leaves alone (it ends in q: not one of SymPy's name modifiers such
+    as bm / hat / dot, not a Greek letter)."""
+    out = ""
+    while True:
+        out = "wxz"[n % 3] + out
+        n //= 3
+        if n == 0:
+            return out + "q"
+
+
+def _fresh_names(case):
+    """The model's display-name tokens zq / zq1 stand for "a name" and "that name followed by a digit".  Every
+    history gets its own digit-free base name for them, so that whatever the library keys on display names
+    starts afresh in every history although the worker process is long-lived."""
+    if not any(st["n"].startswith("zq") for st in case["h"]):
+        return case
+    base = "zq" + _letters(_SEQ)
+
+    def ren(s_):
+        return base + s_[2:] if isinstance(s_, str) and s_.startswith("zq") else s_
+    return dict(case, h=[dict(st, n=ren(st["n"])) for st in case["h"]],
+                o=[dict(o, display=ren(o["display"]), latex=ren(o["latex"])) for o in case["o"]])
 
 
 def replay_one(case):
@@ -191,7 +242,7 @@ def replay_one(case):
     out = []
     try:
         with time_limit(60):
-            _replay(L, case, out)
+            _replay(L, _fresh_names(case), out)
     except HardTimeout:
         out.append(("outside", "timeout", "replay did not finish within 60 s"))
     _SEQ += 1
@@ -214,60 +265,77 @@ def _replay(L, case, out):
 
     for k, st in enumerate(hist):
         try:
-            o = _create(L, st, live)
+            made = _create(L, st, live)
         except Exception as e:  # pylint: disable=broad-except
             bad("creation", f"step {k + 1} {st['op']} raised {type(e).__name__}: {str(e)[:160]}")
             return
         if st["obj"] == 0:
             continue
-        m = mobjs[st["obj"] - 1]
-        kind = m["kind"]
-        live.append(o)
-        name = _internal_name(kind, o)
-        # NoAlias: the generated names of all live objects are pairwise distinct, and so are the objects
-        for j, other in enumerate(live[:-1]):
-            if names[j] == name:
-                bad("NoAlias", f"step {k + 1}: object {len(live)} ({kind}) got the generated name {name} of object {j + 1}")
-            if mobjs[j]["kind"] == kind and (other == o or other is o):
-                bad("NoAlias", f"step {k + 1}: object {len(live)} ({kind} {name}) compares equal to object {j + 1}")
-        names.append(name)
-        name_map[m["name"]] = name
-        if kind in ("system", "vecsym", "vecfun"):
-            if kind != "system" and m["explicitD"] and o.display_name != m["display"]:
-                bad("display", f"step {k + 1}: {kind} display name {o.display_name!r}, model {m['display']!r}")
-            continue
-        # display / LaTeX names
-        want_d = translate(m["display"])
-        if o.display_name != want_d:
-            bad("CloneKeeps.display" if st["src"] else "display",
-                f"step {k + 1} {st['op']}: display name {o.display_name!r}, model {want_d!r}")
-        want_l = translate(m["latex"])
-        if o.display_latex != want_l:
-            bad("CloneKeeps.latex" if st["src"] else "latex",
-                f"step {k + 1} {st['op']}: LaTeX name {o.display_latex!r}, model {want_l!r}")
-        # a display name that was given must never become the internal (SymPy) name
-        if m["explicitD"] and name == m["display"]:
-            bad("NoAlias", f"step {k + 1}: the display name {name!r} is used as the internal name")
-        # dimension
-        if o.dimension != L.dims[m["dim"]]:
-            bad("CloneKeeps.dimension" if st["src"] else "dimension",
-                f"step {k + 1} {st['op']}: dimension {o.dimension}, model {m['dim']}")
-        # assumptions (symbols and indexed symbols; "open" = the statement does not say)
-        if kind in ("symbol", "indexed") and m["assum"] != "open":
-            got = dict(o.assumptions0)
-            if got != L.closure[m["assum"]]:
-                bad("CloneKeeps.assumptions" if st["src"] else "assumptions",
-                    f"step {k + 1} {st['op']}: assumptions0 {sorted(k_ for k_, v in got.items() if v)}, "
-                    f"model '{m['assum']}'")
-            if st["src"] and st["a"] == "inherit" and got != dict(live[st["src"] - 1].assumptions0):
-                bad("CloneKeeps.assumptions", f"step {k + 1} {st['op']}: assumptions0 differ from the source's")
+        for idx, o in enumerate(made if isinstance(made, list) else [made]):
+            _check_object(L, k, st, mobjs[st["obj"] - 1 + idx], o, mobjs, live, names, name_map, translate, bad)
     _behaviour(L, mobjs, live, names, translate, bad, out, case)
+
+
+def _check_object(L, k, st, m, o, mobjs, live, names, name_map, translate, bad):
+    """Projection of one new real object against the record the model appended."""
+    kind = m["kind"]
+    live.append(o)
+    name = _internal_name(kind, o)
+    # NoAlias: the REAL generated names of all live objects are pairwise distinct, and so are the objects
+    for j, other in enumerate(live[:-1]):
+        if names[j] == name:
+            bad("NoAlias", f"step {k + 1}: object {len(live)} ({kind}) got the generated name {name} of object {j + 1}")
+        if other is o or (mobjs[j]["kind"] == kind and other == o):
+            bad("NoAlias", f"step {k + 1}: object {len(live)} ({kind} {name}) is / compares equal to object {j + 1}")
+    names.append(name)
+    name_map[m["name"]] = name
+    if kind in ("system", "vecsym", "vecfun"):
+        if kind != "system" and m["explicitD"] and o.display_name != m["display"]:
+            bad("display", f"step {k + 1}: {kind} display name {o.display_name!r}, model {m['display']!r}")
+        return
+    # display / LaTeX names
+    want_d = translate(m["display"])
+    if o.display_name != want_d:
+        bad("CloneKeeps.display" if st["src"] else "display",
+            f"step {k + 1} {st['op']}: display name {o.display_name!r}, model {want_d!r}")
+    want_l = translate(m["latex"])
+    if o.display_latex != want_l:
+        bad("CloneKeeps.latex" if st["src"] else "latex",
+            f"step {k + 1} {st['op']}: LaTeX name {o.display_latex!r}, model {want_l!r}")
+    # a display name that was given must never become the internal (SymPy) name
+    if m["explicitD"] and name == m["display"]:
+        bad("NoAlias", f"step {k + 1}: the display name {name!r} is used as the internal name")
+    # dimension
+    if o.dimension != L.dims[m["dim"]]:
+        bad("CloneKeeps.dimension" if st["src"] else "dimension",
+            f"step {k + 1} {st['op']}: dimension {o.dimension}, model {m['dim']}")
+    # assumptions (symbols and indexed symbols; "open" = the statement does not say): the whole of
+    # assumptions0, true AND false facts
+    if kind in ("symbol", "indexed") and m["assum"] != "open":
+        got = dict(o.assumptions0)
+        if got != L.closure[m["assum"]]:
+            lost = sorted(f"{k_}={v}" for k_, v in L.closure[m["assum"]].items() if got.get(k_) != v)
+            bad("CloneKeeps.assumptions" if st["src"] else "assumptions",
+                f"step {k + 1} {st['op']}: assumptions0 differ from the model's '{m['assum']}' in {lost[:6]}")
+        if st["src"] and st["a"] == "inherit" and got != dict(live[st["src"] - 1].assumptions0):
+            bad("CloneKeeps.assumptions", f"step {k + 1} {st['op']}: assumptions0 differ from the source's")
 
 
 def _behaviour(L, mobjs, live, names, translate, bad, out, case):
     """Non-aliasing as behaviour: in a linear form over all live objects, subs / diff / solve with respect to one
     object touch only that object's own term; printing shows display names."""
     sp = L.sp
+    # earlier objects must still be what they were when created (an aliasing creation overwrites them)
+    for j, (m, o) in enumerate(zip(mobjs, live)):
+        if m["kind"] in ("symbol", "indexed", "function", "quantity"):
+            if o.display_name != translate(m["display"]) or o.dimension != L.dims[m["dim"]]:
+                bad("NoAlias", f"object {j + 1} ({m['kind']} {names[j]}) changed after its creation: display name "
+                               f"{o.display_name!r} / dimension {o.dimension}, model {translate(m['display'])!r} / {m['dim']}")
+    # non-commutative symbols stay non-commutative: the commutator of two of them must not collapse
+    nc = [o for m, o in zip(mobjs, live) if m["kind"] == "symbol" and m["assum"] == "noncommutative"]
+    for a, b in zip(nc, nc[1:]):
+        if a * b - b * a == 0:
+            bad("behaviour.commutator", f"the commutator of the non-commutative symbols {a.name} and {b.name} is 0")
     terms = []
     for m, o in zip(mobjs, live):
         t = _term(L, m["kind"], o)
@@ -316,7 +384,7 @@ def _behaviour(L, mobjs, live, names, translate, bad, out, case):
                     bad("PrintsDisplayNames", f"{pname} of object {i + 1} ({m['kind']}) shows {s!r}, expected {want!r}")
         if m["explicitL"]:
             s = L.latex_str(t)
-            if translate(m["latex"]) not in s or GENERATED.search(s):
+            if not any(f in s for f in _latex_forms(translate(m["latex"]))) or GENERATED.search(s):
                 bad("PrintsDisplayNames", f"latex_str of object {i + 1} ({m['kind']}) shows {s!r}, "
                                           f"expected the LaTeX name {translate(m['latex'])!r}")
     shown = [(i, m, t) for i, m, _o, t in terms if m["kind"] != "system" and m["explicitD"] and m["explicitL"]]
@@ -331,6 +399,8 @@ def _behaviour(L, mobjs, live, names, translate, bad, out, case):
 def _key(case) -> str:
     def one(st):
         bits = [st["op"]] + [f"{f}={st[f]}" for f in ("n", "l", "d", "a", "s", "t") if st[f] != "none"]
+        if st["k"] > 1:
+            bits.append(f"k={st['k']}")
         if st["src"]:
             bits.append(f"src={st['src']}")
         return "(" + " ".join(bits) + ")"
